@@ -326,6 +326,10 @@ class CookieJar(AbstractCookieJar):
     def update_cookies(self, cookies: LooseCookies, response_url: URL = URL()) -> None:
         """Update cookies."""
         hostname = response_url.raw_host
+        if hostname is not None:
+            # Host names compare case-insensitively (RFC 6265 5.1.2); yarl
+            # keeps the case of a URL built with encoded=True
+            hostname = hostname.lower()
 
         if not self._unsafe and is_ip_address(hostname):
             # Don't accept cookies from IPs
@@ -439,7 +443,7 @@ class CookieJar(AbstractCookieJar):
         if not self._cookies:
             # Skip rest of function if no non-expired cookies.
             return filtered
-        hostname = request_url.raw_host or ""
+        hostname = (request_url.raw_host or "").lower()
 
         is_not_secure = request_url.scheme not in ("https", "wss")
         if is_not_secure and self._treat_as_secure_origin:
